@@ -74,6 +74,15 @@ def load_calibrator_state(checkpoint_path: PathLike, _code_state_version: int) -
         # Read the entire dataset into memory
         series_samp = series_file["data"][:]
 
+    # the files are written one after the other: if the last save was interrupted they may
+    # belong to two different checkpoints, which must not be restored as if they were one
+    if not (len(cr) == series_samp.shape[0] == cp["n_sampled_params"]):
+        msg = (
+            f"inconsistent checkpoint in '{checkpoint_path}': {cp['n_sampled_params']} sampled parameters expected, "
+            f"found {len(cr)} result rows and {series_samp.shape[0]} series (was the last save interrupted?)"
+        )
+        raise ValueError(msg)
+
     return (
         # initialization parameters
         cp["parameters_bounds"],
